@@ -35,6 +35,17 @@ def programs(tier):
     progs.append(("in-place-fill", {
         "funcs": [mkfunc("R", calls=[call("D")], reads=["GL", "GD"], rich=False), mkfunc("D", kind="plain", reads=["GL"], rich=False)],
         "vars": {"GL": [1], "GD": {}}, "stmts": {"@fill_list": "GL.append(2)", "@fill_dict": "GD['k'] = 3", "@fill_dict2": "GD['a'] = 4"}}))
+    # default values that cannot be encoded as arguments (object() marker, instance of a class without __repr__)
+    sd = {"funcs": [mkfunc("R", calls=[call("D")], rich=False), mkfunc("D", kind="plain", rich=False)], "vars": {}}
+    for f in sd["funcs"]:
+        f["sentinel_default"] = True
+    progs.append(("sentinel-defaults", sd))
+    # two modules using the same global name for different things
+    progs.append(("same-name-two-modules", {
+        "funcs": [mkfunc("R", calls=[call("D", "modattr")], reads=["SCALE", "OFFSET"], rich=False),
+                  mkfunc("D", module="b", calls=[call("H")], reads=["SCALE", "OFFSET"], rich=False),
+                  mkfunc("H", kind="plain", module="b", reads=["SCALE"], rich=False)],
+        "vars": {"SCALE": 2, "OFFSET": [1]}, "b_vars": {"SCALE": 3, "OFFSET": [2, 3]}}))
     # a plain helper and a tracked variable that carry the names of builtins (defined before or after their user)
     progs.append(("builtin-named-helpers", {
         "funcs": [mkfunc("R", calls=[call("filter")], reads=["hash"], rich=False), mkfunc("filter", kind="plain", rich=False),
